@@ -1451,6 +1451,26 @@ impl Engine for SchedEngine {
             Err(e) => res.notes.push(format!("fresh-process reference unavailable: {}", e)),
         }
 
+        // --- a long-lived thread: a few hundred further calls on varied small inputs (anything that
+        // is recycled, counted or stamped per call gets used some 600 times), then the repeat
+        {
+            let mut hrng = Rng::new(derive(ctx.master_seed ^ 0xb0b0, ctx.job));
+            let small: Vec<Vec<u8>> = (0..6)
+                .map(|_| {
+                    let (_c, _p, raw) = workload::gen_stream(&mut hrng, 60, 700);
+                    raw
+                })
+                .collect();
+            for k in 0..200 {
+                let s = &small[k % small.len()];
+                let _ = catch_unwind(AssertUnwindSafe(|| {
+                    preflate_rs::decompress_deflate_stream(s, k % 2 == 0, 0).map(|r| preflate_rs::recompress_deflate_stream(&r.plain_text, &r.prediction_corrections))
+                }));
+            }
+            let _ = util::take_last_panic();
+            res.count("history_calls_before_repeat", 200);
+        }
+
         // --- repeat in the same process, opposite order
         for c in reference.calls.iter().rev() {
             let o = perform(&pool, *c);
@@ -1596,6 +1616,25 @@ impl Engine for SchedEngine {
                         .set("schedule_prefix", J::Arr(out.schedule.iter().take(48).map(|x| J::u(*x as u64)).collect()))
                         .set("observed", observed_json(&reference, &out)),
                 );
+            }
+            // process-wide state must be left alone: the panic hook installed by this process has to
+            // be in place after concurrent calls (a probe panic must reach it)
+            {
+                let _ = util::take_last_panic();
+                let _ = catch_unwind(|| panic!("simcheck hook probe"));
+                if !util::take_last_panic().contains("simcheck hook probe") && res.violations.is_empty() {
+                    let mut doc = replay_doc(&pool, gen, &plan);
+                    doc.put("pool", pool_to_json(&pool));
+                    doc.put("mode", J::str("schedule_hook"));
+                    res.violations.push(Violation {
+                        clause: "process_state_modified".into(),
+                        key: format!("process_state_modified:panic_hook:{:016x}", ph),
+                        what: "after the scheduled calls returned, the process-wide panic hook installed by the caller is no longer in place (a public function replaced it)".into(),
+                        replay: doc,
+                    });
+                    // put ours back so that later diagnostics work
+                    util::install_quiet_panic_hook();
+                }
             }
             if let Some((clause, call)) = classify(&out) {
                 let (mplan, mout) = minimise(&pool, &reference, &plan, &out, &clause);
@@ -1743,6 +1782,24 @@ impl Engine for SchedEngine {
                     clause: None,
                     digest: 0,
                     detail: "repeated calls identical".into(),
+                }
+            }
+            "schedule_hook" => {
+                let _out = execute(&pool, &reference, &plan);
+                let _ = util::take_last_panic();
+                let _ = catch_unwind(|| panic!("simcheck hook probe"));
+                if !util::take_last_panic().contains("simcheck hook probe") {
+                    ReplayOutcome {
+                        clause: Some("process_state_modified".into()),
+                        digest: 0,
+                        detail: "the caller's panic hook is gone after the scheduled calls".into(),
+                    }
+                } else {
+                    ReplayOutcome {
+                        clause: None,
+                        digest: 0,
+                        detail: "panic hook still in place".into(),
+                    }
                 }
             }
             _ => {
